@@ -87,3 +87,46 @@ def decorate(data: bytes) -> bytes:
                 raw = head + b"<!--verif before root--><?verif-pi before?>" + rest.rstrip() + b"<!--verif after root-->"
             z.writestr(info, raw)
     return out.getvalue()
+
+
+def recode(data: bytes, encoding: str) -> bytes:
+    """The same package with content.xml, styles.xml and meta.xml written in another declared encoding (valid XML; the
+    infoset is unchanged).  encoding: 'ISO-8859-1' (characters outside it become character references) or 'UTF-16'."""
+    import io
+    import zipfile
+
+    from lxml import etree
+
+    src = zipfile.ZipFile(io.BytesIO(data))
+    out = io.BytesIO()
+    with zipfile.ZipFile(out, "w") as z:
+        for info in src.infolist():
+            raw = src.read(info.filename)
+            if info.filename in ("content.xml", "styles.xml", "meta.xml"):
+                tree = etree.fromstring(raw).getroottree()
+                raw = etree.tostring(tree, encoding=encoding, xml_declaration=True)
+            z.writestr(info, raw)
+    return out.getvalue()
+
+
+def dupdirs(data: bytes) -> bytes:
+    """The same package with every directory entry written twice in the zip directory (packages written by some tools
+    repeat directory entries)."""
+    import io
+    import warnings
+    import zipfile
+
+    src = zipfile.ZipFile(io.BytesIO(data))
+    out = io.BytesIO()
+    with warnings.catch_warnings():
+        warnings.simplefilter("ignore")  # zipfile warns about the duplicate names: they are the point
+        with zipfile.ZipFile(out, "w") as z:
+            for info in src.infolist():
+                z.writestr(info, src.read(info.filename))
+                if info.filename.endswith("/"):
+                    z.writestr(info, b"")
+    return out.getvalue()
+
+
+def variant(data: bytes, name: str) -> bytes:
+    return {"decor": decorate, "latin1": lambda d: recode(d, "ISO-8859-1"), "utf16": lambda d: recode(d, "UTF-16"), "dupdirs": dupdirs}[name](data)
